@@ -1,6 +1,6 @@
 (* C20 — Reports and listings are a faithful, complete account of spokfile and run.
    Statements + `exact` + Print Assumptions only. *)
-From Spok Require Import Base Graph RunCache RunCacheProofs RunCacheInst App AppProofs.
+From Spok Require Import Base Graph GraphProofs RunCache RunCacheProofs RunCacheInst App AppProofs.
 From Coq Require Import Permutation Sorted.
 
 (* --json, no failing command: standard output is exactly one JSON document, the results *)
@@ -15,6 +15,20 @@ Theorem C20_json_is_the_run : forall pick defs vars s f req s' ob rs,
     (forall r, In r rs -> tr_skipped r = true -> tr_cmds r = []) /\ ~ has_failure rs.
 Proof. exact json_lists_the_run. Qed.
 Print Assumptions C20_json_is_the_run.
+
+(* the JSON document in full: exit 0; the entries are the closure of the (effective) request in an order in which every
+   dependency precedes its dependant; skipped entries carry no commands; every other entry carries exactly the commands of
+   its task's definition; no entry records a failure *)
+Theorem C20_json_in_full : forall pick defs vars s f req s' ob rs,
+  (forall k l, Permutation (pick k l) l) ->
+  invoke pick defs vars s f req = (s', ob) -> ob_stdout ob = SDJson rs ->
+  ob_exit ob = 0 /\
+  valid_run (gdefs defs) (effective_request defs f req) (map tr_name rs) /\
+  (forall r, In r rs -> tr_skipped r = true -> tr_cmds r = []) /\
+  (forall r, In r rs -> tr_skipped r = false -> exists d, find_def defs (tr_name r) = Some d /\ tr_cmds r = td_cmds d) /\
+  ~ has_failure rs.
+Proof. exact json_is_the_run. Qed.
+Print Assumptions C20_json_in_full.
 
 Theorem C20_results_per_task : forall D deqb dempty digest force b s order rs, rr_out D (run D deqb dempty digest force b s order) = RunOk rs -> map r_task rs = map tname order.
 Proof. exact run_results_names. Qed.
